@@ -336,7 +336,7 @@ func viewOf(lg *mx.Log) map[string]*msgView {
 }
 
 func runS2(t *testing.T, r *rep.Reporter, env instrEnv, ys yieldStats) {
-	n0 := r.N(250, 30_000)
+	n0 := r.N(2000, 30_000)
 	for i := 0; i < n0; i++ {
 		idx := baseS2d0 + i
 		r.Run(idx, fmt.Sprintf("s2-d0-%d", i), func(c *rep.Case) {
@@ -366,7 +366,7 @@ func runS2(t *testing.T, r *rep.Reporter, env instrEnv, ys yieldStats) {
 	r.Set("s2_d1_exhaustive", true)
 	r.Set("s2_d1_plans", len(env.all)*4)
 	// d=2: PRNG-sampled pairs over all sites of both files, occurrences 1..6
-	n2 := r.N(450, 40_000)
+	n2 := r.N(3000, 40_000)
 	for i := 0; i < n2; i++ {
 		idx := baseS2d2 + i
 		r.Run(idx, fmt.Sprintf("s2-d2-%d", i), func(c *rep.Case) {
